@@ -166,22 +166,35 @@ def build_oracle(pid):
         if not ok:
             return None, "theories imported by %s do not build:\n%s" % (os.path.basename(ext), blog[-3000:])
     srcs = [ext, os.path.join(ORACLE, low, "main.ml"), os.path.join(ORACLE, "common", "sx.ml")]
-    srcs += glob.glob(os.path.join(THEORIES, "*.vo"))
+    # the statement files are recompiled by every check and are never extracted from
+    srcs += [f for f in glob.glob(os.path.join(THEORIES, "*.vo")) if not os.path.basename(f).startswith("Properties_")]
     if os.path.exists(exe) and os.path.getmtime(exe) >= newest(srcs):
         return exe, "up to date"
-    shutil.rmtree(bdir, ignore_errors=True)
-    os.makedirs(bdir)
-    shutil.copy(ext, bdir)
-    rc, out = run(["coqc", "-Q", THEORIES, "GW", "-w", "-notation-overridden,-unknown-option,-extraction", os.path.basename(ext)], cwd=bdir, timeout=900)
-    if rc != 0:
-        return None, out
-    shutil.copy(os.path.join(ORACLE, "common", "sx.ml"), bdir)
-    shutil.copy(os.path.join(ORACLE, low, "main.ml"), bdir)
-    model = "model_%s" % low
-    rc, out2 = run(["ocamlfind", "ocamlopt", "-O2", "-w", "-a", "sx.ml", model + ".mli", model + ".ml", "main.ml", "-o", exe], cwd=bdir, timeout=900)
-    if rc != 0:
-        return None, out + out2
-    return exe, out + out2
+    # build beside the live directory and move the executable into place in one step: a check
+    # running at the same time (against another tree) may be about to execute the old one
+    tdir = bdir + ".tmp.%d" % os.getpid()
+    shutil.rmtree(tdir, ignore_errors=True)
+    os.makedirs(tdir)
+    try:
+        shutil.copy(ext, tdir)
+        rc, out = run(["coqc", "-Q", THEORIES, "GW", "-w", "-notation-overridden,-unknown-option,-extraction", os.path.basename(ext)], cwd=tdir, timeout=900)
+        if rc != 0:
+            return None, out
+        shutil.copy(os.path.join(ORACLE, "common", "sx.ml"), tdir)
+        shutil.copy(os.path.join(ORACLE, low, "main.ml"), tdir)
+        model = "model_%s" % low
+        texe = os.path.join(tdir, low + ".exe")
+        rc, out2 = run(["ocamlfind", "ocamlopt", "-O2", "-w", "-a", "sx.ml", model + ".mli", model + ".ml", "main.ml", "-o", texe], cwd=tdir, timeout=900)
+        if rc != 0:
+            return None, out + out2
+        os.makedirs(bdir, exist_ok=True)
+        for f in os.listdir(tdir):
+            if f != low + ".exe":
+                os.replace(os.path.join(tdir, f), os.path.join(bdir, f))
+        os.replace(texe, exe)
+        return exe, out + out2
+    finally:
+        shutil.rmtree(tdir, ignore_errors=True)
 
 
 def build_harness(cmd):
